@@ -90,6 +90,9 @@ typedef struct { double a, b; } uniform_real_dist;
 static inline vec_double vec_double_default(void) { vec_double v; v.data = 0; v.size = 0; v.cap = 0; v.wf = 0; return v; }
 static inline size_t vec_double_size(const vec_double *v) { return v->size; }
 static inline double *vec_double_at(vec_double *v, size_t i) { if(i >= v->size) { printf("OUT_OF_RANGE\n"); exit(3); } return &v->data[i]; }
+static inline _Bool vec_double_empty(const vec_double *v) { return v->size == 0; }
+static inline double *vec_double_back(vec_double *v) { return vec_double_at(v, v->size - 1); }
+static inline double *vec_double_front(vec_double *v) { return vec_double_at(v, 0); }
 static inline void vec_double_reserve(vec_double *v, size_t n) { if(n > v->cap) { v->data = realloc(v->data, n * sizeof(double)); v->cap = n; } }
 static inline void vec_double_emplace_back(vec_double *v, double x) { if(v->size == v->cap) vec_double_reserve(v, v->cap ? 2 * v->cap : 1); v->data[v->size++] = x; }
 static inline vec_double *vec_double_assign1(vec_double *v, double x) { v->size = 0; vec_double_emplace_back(v, x); return v; }
